@@ -91,6 +91,12 @@ def cases(tier, seed):
         lens = [2_000_000, 1_000_000]
         yield "zm.resspec", {"spec": spec, "items": items, "binsize": 1000, "lens": lens,
                              "maxres": -(-sum(lens) // 256)}
+    # genomes whose coarsest useful resolution ceil(length / 256) is EXACTLY a member of the progression (the bound is inclusive)
+    for lens, b0, spec, items in (([1024], 1, "B", [{"kind": "b", "start": 1}]), ([1280], 1, "N", [{"kind": "n", "start": 1}]),
+                                  ([2048], 2, "2B", [{"kind": "b", "start": 2}]), ([1281], 1, "N", [{"kind": "n", "start": 1}]),
+                                  ([2560], 1, "N", [{"kind": "n", "start": 1}]), ([512, 512], 1, "b", [{"kind": "b", "start": 1}]),
+                                  ([256], 1, "B", [{"kind": "b", "start": 1}]), ([5120], 2, "2N", [{"kind": "n", "start": 2}])):
+        yield "zm.resspec", {"spec": spec, "items": items, "binsize": b0, "lens": lens, "maxres": -(-sum(lens) // 256)}
     # genome sizes at which the aliases differ from one another (small: < 512 kb; large: > 5.12 Mb)
     for lens in ([300_000], [4_000_000, 2_500_000]):
         for spec, items in (specs[0], specs[2], specs[4], specs[6]):
